@@ -51,6 +51,8 @@ class Machine(object):
         self.value_horizon = None   # optional bit-length horizon: Unspecified beyond it
         self.reads = 0
         self._k = None
+        self.fwd_jumps = 0      # label / ♡ jumps to a later command (statistics for program generators)
+        self.back_jumps = 0
 
     def clone(self):
         m = Machine.__new__(Machine)
@@ -67,6 +69,8 @@ class Machine(object):
         m.value_horizon = self.value_horizon
         m.reads = self.reads
         m._k = None
+        m.fwd_jumps = self.fwd_jumps
+        m.back_jumps = self.back_jumps
         return m
 
     # ---- observation
@@ -172,7 +176,13 @@ class Machine(object):
         if tree is None:
             return idx + 1
         if tree == '♡':
-            return self.latest if self.latest is not None else idx + 1
+            if self.latest is None:
+                return idx + 1
+            if self.latest > idx:
+                self.fwd_jumps += 1
+            else:
+                self.back_jumps += 1
+            return self.latest
         lab = (count, tree)
         t = self.labels.get(lab)
         if t is None:
@@ -180,6 +190,10 @@ class Machine(object):
             return idx + 1
         if t != idx:
             self.latest = idx
+            if t > idx:
+                self.fwd_jumps += 1
+            else:
+                self.back_jumps += 1
             return t
         return idx + 1
 
